@@ -5,6 +5,11 @@ WeightSaveCallback; a harness callback placed after them copies the checkpoint f
 it is rewritten.  For EVERY copy (interruption step k) a fresh Solver is built from the same spec
 with different initial weights, resumed with Trainer(max_steps=N).fit(ckpt_path=copy_k) and
 compared with the uninterrupted run.  The weight files are loaded into freshly built models.
+
+Model configurations whose state_dict has MORE entries than named_parameters() are part of the
+generator: FCN/QRES/FNO built with ONE AdaptiveActivationFunction object (the constructors reuse
+a single activation for every hidden layer, so its slope 'a' appears once per layer in the
+state_dict) and FNO with batch normalisation (running statistics are buffers).
 """
 import os
 import shutil
@@ -20,21 +25,34 @@ from vf import train as T
 
 PROPERTY = "C19"
 LEVEL = "exploration"
-RULE = ("Hypothesis draws a training configuration as in C07 (1-2 models, 0-2 learnable "
-        "Parameters, 1-4 conditions out of PINN/Mean/DeepRitz/Parameter/AdaptiveWeights/Data/"
-        "Periodic, optimizer SGD/momentum/Adam/AdamW/RMSprop, optional StepLR/ExponentialLR with "
-        "frequency 1-3, deterministic samplers), N=2..10 steps, TrainerStateCheckpoint interval "
-        "1..4 (weights_only=False), WeightSaveCallback on one of the models with interval in "
-        "{-1,1,2,3,4} and both flags drawn. Per configuration the set of interruption points is "
+RULE = ("Two families of training configurations. (a) 4 of 5 draws: as in C07 (1-2 models, 0-2 "
+        "learnable Parameters, 1-4 conditions out of PINN/Mean/DeepRitz/Parameter/AdaptiveWeights/"
+        "Data/Periodic, optimizer SGD/momentum/Adam/AdamW/RMSprop, optional StepLR/ExponentialLR "
+        "with frequency 1-3, deterministic samplers); every FCN/QRES model additionally draws its "
+        "activation as plain, ONE AdaptiveActivationFunction object shared by all hidden layers "
+        "(then 2-3 hidden layers, so the state_dict has more entries than named_parameters()) or "
+        "one AdaptiveActivationFunction per layer. (b) 1 of 5 draws: operator learning, 1-2 FNO "
+        "models (1-2 Fourier layers, 2-4 channels, 1-4 modes, skip/linear connections, optional "
+        "batch normalisation = buffers, optional shared AdaptiveActivationFunction, optional "
+        "down-sampling network) fitted by 1-3 single-batch DataConditions on (n, res, dim) function "
+        "samples. Both: N=2..10 steps, TrainerStateCheckpoint interval 1..4 (weights_only=False), "
+        "WeightSaveCallback on one of the models with interval in {-1,1,2,3,4} and both flags "
+        "drawn. Per configuration the set of interruption points is "
         "enumerated completely: every rewrite of the checkpoint file is copied and resumed from, "
         "in a freshly built Solver whose learnable tensors were shifted by N(0,0.25^2). Oracles: "
-        "learnable tensors, per-tensor optimizer state, lr and scheduler counter after the resumed "
-        "run == uninterrupted run (<=1e-6*max(1,|value|), 0.0 expected); _init.pt/_final.pt load "
-        "strictly into a fresh model and reproduce the pre-/post-training state dict and outputs "
-        "bitwise; _min_loss.pt equals the model state at the start of one of the checked batches; "
+        "learnable tensors, buffers of the trained models, per-tensor optimizer state, lr and "
+        "scheduler counter after the resumed "
+        "run == uninterrupted run (<=1e-6*max(1,|value|), 0.0 expected; complex tensors as (re,im)); "
+        "every weight file has exactly the keys of the model's state_dict; _init.pt/_final.pt load "
+        "strictly into a fresh model and reproduce the pre-/post-training state dict bitwise and the "
+        "eval-mode outputs bitwise; _min_loss.pt loads strictly and equals the model state at the "
+        "start of one of the checked batches; "
         "a file whose flag is off is not written. Non-trivial: some interruption step k with "
         "1<k<N and the configuration has optimizer state (momentum/Adam/RMSprop) or a scheduler or "
-        "a trained Parameter; distinct = spec hash without the rng seed.")
+        "a trained Parameter; distinct = spec hash without the rng seed. extra_cases pins six "
+        "configurations whose watched model has state_dict > named_parameters (shared activation "
+        "in FCN/QRES/FNO, FNO batch norm; one of them with a per-layer-activation second model), "
+        "all three files requested.")
 ASSUMPTIONS = [
     "deterministic sampling (premise of the property): grids, DataSampler, pre-sampled static samplers",
     "Solver.on_train_start resets n_training_step to 0 on resume (stated in the callback's note), "
@@ -45,14 +63,78 @@ ASSUMPTIONS = [
     "all files live in a per-case directory from tempfile.mkdtemp(dir='/tmp'), removed in a finally block",
     "which steps get a checkpoint is not prescribed beyond 'every check_interval steps': only "
     "'at least one checkpoint when N >= interval' is demanded, every checkpoint found is resumed from",
+    "'loads into a freshly built identical model' = load_state_dict(strict=True), torch's default, "
+    "into a model built by the same constructor call; therefore a file must hold every "
+    "state_dict entry (shared parameters under each of their names, buffers), not only "
+    "named_parameters()",
+    "'reproduces the model' is observed on the state_dict and on eval-mode outputs (eval mode so "
+    "that batch-norm running statistics take part and the probe does not change them; the "
+    "train/eval flags of all submodules are put back afterwards)",
+    "buffers of a trained model (batch-norm running statistics) are produced by training and "
+    "decide the eval-mode outputs: they are compared like the learnable state after a resume",
+    "FCN/QRES/FNO 'activations: a single function is used for each layer' (docstrings) - a single "
+    "AdaptiveActivationFunction object is therefore a documented way to share one slope; "
+    "FNO + DataCondition on (batch, resolution, dim) Points with space_resolution is the usage of "
+    "examples/fno/integrator(+batchnorm).ipynb",
+    "models are built through vf.train.build with its model factory extended for the duration "
+    "of the call (this file only); the FNO family is built here and exposes the same World fields",
 ]
-BUDGET = {"quick": {"examples": 45, "workers": 4, "shrink": False},
+BUDGET = {"quick": {"examples": 50, "workers": 4, "shrink": False},
           "thorough": {"examples": 700, "workers": 14}}
 
 
 @st.composite
+def _fno_model(draw):
+    return {"arch": "FNO", "in": draw(st.sampled_from(["f1", "f1", "f2"])),
+            "out": draw(st.sampled_from([1, 1, 2])),
+            "res": draw(st.integers(3, 8)), "layers": draw(st.sampled_from([2, 1, 2, 3])),
+            "channels": draw(st.integers(2, 4)), "modes": draw(st.integers(1, 4)),
+            "skip": draw(st.booleans()), "linear": draw(st.booleans()), "bias": draw(st.booleans()),
+            "bn": draw(st.booleans()),
+            "act": draw(st.sampled_from(["tanh", "sigmoid", "sin"])),
+            "adaptive": draw(st.sampled_from([None, "shared", "shared", "per-layer"])),
+            "scaling": draw(st.sampled_from([1.0, 2.0, 0.5])),
+            "down_net": draw(st.booleans())}
+
+
+@st.composite
+def _fno_config(draw):
+    """operator-learning family: FNO models fitted to data (examples/fno)"""
+    n_models = draw(st.sampled_from([1, 1, 2]))
+    models = [draw(_fno_model()) for _ in range(n_models)]
+    train = []
+    for _ in range(draw(st.sampled_from([1, 2, 1, 3]))):
+        n = draw(st.integers(1, 5))
+        train.append({"type": "data", "model": draw(st.integers(0, n_models - 1)),
+                      "weight": draw(st.sampled_from([1.0, 0.1, 5.0, 2.5])),
+                      "n": n, "batch": n, "norm": draw(st.sampled_from([2, 2, 1, 3, "inf"])),
+                      "root": draw(st.sampled_from([1.0, 1.0, 2.0])), "full": draw(st.booleans())})
+    return {"family": "fno", "models": models, "params": [], "train": train,
+            "opt": draw(T._optimizer()),
+            "sched": draw(st.one_of(T._scheduler(), st.none(), T._scheduler())),
+            "rng": draw(st.integers(0, 2 ** 31 - 1)),
+            "steps": draw(st.sampled_from([4, 3, 5, 2, 6, 7, 8, 9, 10])),
+            "val": [], "val_interval": None}
+
+
+@st.composite
 def _case(draw, tier):
-    spec = draw(T.config(tier, resume=True))
+    if draw(st.integers(0, 4)) == 4:
+        spec = draw(_fno_config())
+    else:
+        spec = draw(T.config(tier, resume=True))
+        for m in spec["models"]:
+            if m["arch"] not in ("FCN", "QRES"):
+                continue
+            mode = draw(st.sampled_from([None, None, "shared", "shared", "per-layer"]))
+            if mode is None:
+                continue
+            m["adaptive"] = mode
+            m["scaling"] = draw(st.sampled_from([1.0, 2.0, 0.5]))
+            if mode == "shared":
+                # one activation object for >= 2 hidden layers: the slope is shared between them
+                while len(m["hidden"]) < 2 or (len(m["hidden"]) < 3 and draw(st.integers(0, 3)) == 0):
+                    m["hidden"].append(draw(st.integers(1, 6)))
     spec["ckpt_interval"] = draw(st.sampled_from([2, 1, 3, 4]))
     spec["ws"] = {"model": draw(st.integers(0, len(spec["models"]) - 1)),
                   "interval": draw(st.sampled_from([2, 1, 3, -1, 4])),
@@ -62,6 +144,151 @@ def _case(draw, tier):
 
 def strategy(tier):
     return _case(tier)
+
+
+def extra_cases(tier, seed):
+    """pinned: models whose state_dict is larger than named_parameters() (+ one control), with
+    all three weight files requested and a mid-run checkpoint"""
+    adam = {"kind": "adam", "lr": 0.01, "betas": [0.9, 0.99], "amsgrad": False, "weight_decay": 0.0}
+    mom = {"kind": "momentum", "lr": 0.01, "momentum": 0.9, "nesterov": False, "weight_decay": 0.0}
+    grid = {"k": "grid", "n": 6, "n2": 2, "static": True}
+
+    def pinn(model, params=(), res="value"):
+        return {"type": "pinn", "model": model, "weight": 1.0, "sampler": dict(grid), "res": res,
+                "data_fn": False, "params": list(params), "track": True}
+
+    def std(models, train, opt, params=(), sched=None, steps=5, ckpt=2, ws_model=0, ws_interval=1):
+        return {"models": models, "params": list(params), "train": train, "opt": dict(opt),
+                "sched": sched, "rng": 1000 + int(seed) % 7, "steps": steps, "val": [],
+                "val_interval": None, "ckpt_interval": ckpt,
+                "ws": {"model": ws_model, "interval": ws_interval, "init": True, "final": True}}
+
+    def fcn(arch="FCN", hidden=(4, 3), mode="shared", inp="x", out=1, act="tanh"):
+        return {"arch": arch, "in": inp, "out": out, "hidden": list(hidden), "act": act,
+                "adaptive": mode, "scaling": 1.0}
+
+    def fno(bn, mode, layers=2, inp="f1", out=1, down=False):
+        return {"arch": "FNO", "in": inp, "out": out, "res": 6, "layers": layers, "channels": 3,
+                "modes": 2, "skip": True, "linear": True, "bias": True, "bn": bn, "act": "tanh",
+                "adaptive": mode, "scaling": 1.0, "down_net": down}
+
+    def data(model, n=3, norm=2):
+        return {"type": "data", "model": model, "weight": 1.0, "n": n, "batch": n, "norm": norm,
+                "root": 1.0, "full": False}
+
+    def op(models, train, opt, **kw):
+        s = std(models, train, opt, **kw)
+        s["family"] = "fno"
+        return s
+
+    yield std([fcn()], [pinn(0)], adam)
+    yield std([fcn("QRES", (3, 2, 3), inp="xt")], [pinn(0, params=[0], res="deriv")], mom,
+              params=[{"dims": [1], "init": [0.5]}],
+              sched={"kind": "exp", "gamma": 0.9, "freq": 2}, steps=6, ckpt=3, ws_interval=2)
+    yield std([fcn(hidden=(3, 3), mode="per-layer"), fcn(hidden=(2, 2, 2), act="sin", out=2)],
+              [pinn(0), pinn(1)], adam, ws_model=1)
+    yield op([fno(True, None)], [data(0)], adam)
+    yield op([fno(False, "shared", down=True)], [data(0, norm=1)], mom, ws_interval=2)
+    yield op([fno(True, "shared", layers=3, inp="f2", out=2), fno(False, None, layers=1)],
+             [data(0), data(1, n=1), data(0, n=4, norm="inf")], adam, steps=6, ckpt=4,
+             sched={"kind": "step", "gamma": 0.5, "freq": 1, "step_size": 2})
+
+
+# ====================================================================== builders
+def _activation(m, n_layers):
+    """what is handed as `activations`: a plain module, ONE AdaptiveActivationFunction object
+    (the constructors then use it for every layer) or a list with one object per layer"""
+    import torchphysics as tp
+    mode = m.get("adaptive")
+    if mode is None:
+        return T._act(m["act"])
+    if mode == "shared":
+        return tp.models.AdaptiveActivationFunction(T._act(m["act"]), scaling=m.get("scaling", 1.0))
+    return [tp.models.AdaptiveActivationFunction(T._act(m["act"]), scaling=m.get("scaling", 1.0))
+            for _ in range(n_layers)]
+
+
+def _build_model_ext(m, out_name):
+    """vf.train's model factory plus the `adaptive` key of FCN / QRES models"""
+    import torchphysics as tp
+    if m.get("adaptive") is None or m["arch"] not in ("FCN", "QRES"):
+        return _ORIG_BUILD_MODEL(m, out_name)
+    cls = tp.models.FCN if m["arch"] == "FCN" else tp.models.QRES
+    return cls(T._in_space(m["in"]), T._out_space(out_name, m["out"]), hidden=tuple(m["hidden"]),
+               activations=_activation(m, len(m["hidden"])))
+
+
+_ORIG_BUILD_MODEL = T._build_model
+
+
+def _fno_in_space(kind):
+    import torchphysics as tp
+    return tp.spaces.R1("f") if kind == "f1" else tp.spaces.R2("f")
+
+
+def _fno_in_dim(kind):
+    return 1 if kind == "f1" else 2
+
+
+def _build_fno_model(m, out_name):
+    import torchphysics as tp
+    F, U = _fno_in_space(m["in"]), T._out_space(out_name, m["out"])
+    kw = {}
+    if m["down_net"]:
+        kw["channel_down_sample_network"] = torch.nn.Sequential(
+            torch.nn.Linear(m["channels"], m["channels"]), torch.nn.Tanh(),
+            torch.nn.Linear(m["channels"], U.dim))
+    return tp.models.FNO(F, U, fourier_layers=m["layers"], hidden_channels=m["channels"],
+                         fourier_modes=m["modes"], activations=_activation(m, m["layers"]),
+                         skip_connections=m["skip"], linear_connections=m["linear"], bias=m["bias"],
+                         space_resolution=(m["res"] if m["bn"] else None), **kw)
+
+
+def _build_fno_world(spec, perturb):
+    """same fields as vf.train.build: FNO models, one single-batch DataCondition per entry"""
+    import torchphysics as tp
+    seed = int(spec["rng"])
+    torch.manual_seed(seed)
+    gen = torch.Generator().manual_seed(seed)
+    w = T.World()
+    w.spec = spec
+    w.models = [_build_fno_model(m, T.OUT_NAMES[i]) for i, m in enumerate(spec["models"])]
+    w.params, w.pvars = [], []
+    w.extra_models, w.extra_params, w.extra_pvars = [], [], []
+    w.train, w.train_info, w.val, w.val_info = [], [], [], []
+    for i, c in enumerate(spec["train"]):
+        mi = c["model"] % len(w.models)
+        m = spec["models"][mi]
+        n = c["n"]
+        grid = torch.linspace(0.0, 1.0, m["res"]).reshape(1, -1, 1)
+        freq = 1.0 + 3.0 * torch.rand((n, 1, _fno_in_dim(m["in"])), generator=gen)
+        fin = torch.sin(freq * grid) + 0.3 * torch.rand((n, m["res"], _fno_in_dim(m["in"])), generator=gen)
+        uout = torch.cumsum(fin.sum(dim=2, keepdim=True), dim=1) / m["res"] \
+            * torch.ones((1, 1, m["out"])) + 0.1 * torch.randn((n, m["res"], m["out"]), generator=gen)
+        loader = tp.utils.PointsDataLoader(
+            (tp.spaces.Points(fin, _fno_in_space(m["in"])),
+             tp.spaces.Points(uout, T._out_space(T.OUT_NAMES[mi], m["out"]))), batch_size=c["batch"])
+        w.train.append(tp.conditions.DataCondition(w.models[mi], loader, norm=c["norm"], root=c["root"],
+                                                   use_full_dataset=c["full"], name=f"data_t{i}",
+                                                   weight=c["weight"]))
+        w.train_info.append({"type": "data", "model": mi, "adaptive": None, "n_points": None,
+                             "weight": c["weight"], "tag": f"t{i}", "params": []})
+    if perturb:
+        g2 = torch.Generator().manual_seed(seed + 7919)
+        with torch.no_grad():
+            for t in T.learnables(w).values():
+                t.add_(0.25 * torch.randn(t.shape, generator=g2))   # complex kernels: real part shifted
+    return w
+
+
+def _build(spec, perturb=False):
+    if spec.get("family") == "fno":
+        return _build_fno_world(spec, perturb)
+    T._build_model = _build_model_ext
+    try:
+        return T.build(spec, perturb=perturb)
+    finally:
+        T._build_model = _ORIG_BUILD_MODEL
 
 
 class _Recorder(pl.Callback):
@@ -76,7 +303,7 @@ class _Recorder(pl.Callback):
         self.logged = {}          # batch_idx -> logged train/loss seen at batch start
 
     def on_train_batch_start(self, trainer, pl_module, batch, batch_idx, dataloader_idx=0):
-        self.at_batch_start[batch_idx] = {k: v.detach().clone() for k, v in self.model.state_dict().items()}
+        self.at_batch_start[batch_idx] = _state_copy(self.model)
         v = trainer.logged_metrics.get("train/loss")
         self.logged[batch_idx] = None if v is None else float(v)
 
@@ -95,9 +322,47 @@ class _Recorder(pl.Callback):
 
 
 def _probe(mspec, gen):
-    x = torch.rand((5, T._in_dim(mspec["in"])), generator=gen)
     import torchphysics as tp
+    if mspec["arch"] == "FNO":
+        x = torch.rand((3, mspec["res"], _fno_in_dim(mspec["in"])), generator=gen)
+        return tp.spaces.Points(x, _fno_in_space(mspec["in"]))
+    x = torch.rand((5, T._in_dim(mspec["in"])), generator=gen)
     return tp.spaces.Points(x, T._in_space(mspec["in"]))
+
+
+def _eval_outputs(model, probe):
+    """outputs in eval mode (batch norm: running statistics are used and left unchanged); the
+    train/eval flag of every submodule is put back"""
+    modes = [(mod, mod.training) for mod in model.modules()]
+    model.eval()
+    try:
+        with torch.no_grad():
+            return model(probe).as_tensor.clone()
+    finally:
+        for mod, flag in modes:
+            mod.training = flag
+
+
+def _state_copy(model):
+    return {k: v.detach().clone() for k, v in model.state_dict().items()}
+
+
+def _real(t):
+    """complex tensors (FNO kernels and their optimizer state) as (re, im) pairs"""
+    return torch.view_as_real(t) if torch.is_tensor(t) and t.is_complex() else t
+
+
+def _real_view(view):
+    if view is None:
+        return None
+    state = {role: (None if stt is None else {k: _real(v) for k, v in stt.items()})
+             for role, stt in view["state"].items()}
+    return dict(view, state=state)
+
+
+def _buffers(w):
+    """role -> buffer of the models (batch-norm running statistics)"""
+    return {f"model{i}.{n}": b for i, m in enumerate(w.models) for n, b in m.named_buffers()}
 
 
 def _bitwise(a, b):
@@ -106,6 +371,9 @@ def _bitwise(a, b):
         return False
     if torch.equal(a, b):
         return True
+    if not (a.is_floating_point() or a.is_complex()):
+        return False
+    a, b = _real(a), _real(b)
     return torch.equal(torch.isnan(a), torch.isnan(b)) and \
         torch.equal(torch.nan_to_num(a, nan=0.0), torch.nan_to_num(b, nan=0.0))
 
@@ -140,15 +408,14 @@ def _run(spec, ctx, tmp):
 
     # ---- uninterrupted run
     with ctx.lib("construct"):
-        w = T.build(spec)
+        w = _build(spec)
         solver = T.make_solver(w)
     mi = ws["model"] % len(w.models)
     mspec = spec["models"][mi]
     watched = w.models[mi]
     probe = _probe(mspec, torch.Generator().manual_seed(int(spec["rng"]) + 1))
-    with torch.no_grad():
-        out_before = watched(probe).as_tensor.clone()
-    sd_before = {k: v.detach().clone() for k, v in watched.state_dict().items()}
+    sd_before = _state_copy(watched)
+    out_before = _eval_outputs(watched, probe)
     rec = _Recorder(tmp, watched)
     with ctx.lib("construct-callbacks"):
         callbacks = [TrainerStateCheckpoint(tmp, "state", check_interval=c, weights_only=False),
@@ -160,10 +427,10 @@ def _run(spec, ctx, tmp):
         trainer.fit(solver)
     tensors = T.learnables(w)
     final = T.snapshot(tensors)
-    view = T.trainer_view(trainer, tensors)
-    with torch.no_grad():
-        out_after = watched(probe).as_tensor.clone()
-    sd_after = {k: v.detach().clone() for k, v in watched.state_dict().items()}
+    view = _real_view(T.trainer_view(trainer, tensors))
+    final_buffers = T.snapshot(_buffers(w))
+    sd_after = _state_copy(watched)
+    out_after = _eval_outputs(watched, probe)
     if trainer.global_step != N:
         report("step-count", "uninterrupted", f"global_step={trainer.global_step} for max_steps={N}")
 
@@ -176,25 +443,36 @@ def _run(spec, ctx, tmp):
     for k, batch_idx, path in rec.copies:
         steps_k.append(k)
         with ctx.lib("construct-for-resume"):
-            w2 = T.build(spec, perturb=True)
+            w2 = _build(spec, perturb=True)
             solver2 = T.make_solver(w2)
         t2 = T.learnables(w2)
         with ctx.lib("resume", feature="weights-and-state"):
             tr2 = T.make_trainer(N)
             tr2.fit(solver2, ckpt_path=path)
-            view2 = T.trainer_view(tr2, t2)
+            view2 = _real_view(T.trainer_view(tr2, t2))
         pos = "last-step" if k >= N else "mid-run"
         if tr2.global_step != N:
             report("step-count", "resumed-" + pos, f"resumed from step {k}: global_step={tr2.global_step}, expected {N}")
         for role, t in t2.items():
             if role not in reachable:
                 continue     # built by the generator but handed to no condition: not part of the Solver
-            d = T.maxdiff(t, final[role])
+            d = T.maxdiff(_real(t), _real(final[role]))
             worst = max(worst, d)
             if d > _tol(final[role]):
                 report("resume-mismatch", T.role_kind(role),
                        f"{role}: resumed from step {k} of {N} (interval {c}) differs from the uninterrupted run "
                        f"by {d:.3e}; opt={spec['opt']['kind']} sched={spec['sched']}")
+        trained_models = {info["model"] for info in w2.train_info if info["type"] != "param"}
+        for role, b in _buffers(w2).items():
+            if int(role[len("model"):role.index(".")]) not in trained_models or role not in final_buffers:
+                continue
+            ref = final_buffers[role]
+            d = T.maxdiff(b, ref)
+            worst = max(worst, d)
+            if d > (_tol(ref) if ref.is_floating_point() else 0.0):
+                report("resume-mismatch", "model-buffers",
+                       f"{role}: resumed from step {k} of {N} (interval {c}) differs from the uninterrupted run "
+                       f"by {d:.3e}")
         if view is not None and view2 is not None:
             for what, role, detail in T.compare_views(view2, view):
                 if what == "lr":
@@ -206,14 +484,35 @@ def _run(spec, ctx, tmp):
             report("optimizer-count", "resumed", "number of optimizers differs between the runs")
 
     # ---- weight files
-    def load_into_fresh(fname):
-        """state dict from the file, and the outputs of a fresh (differently initialised) model
-        after a strict load"""
-        sd = torch.load(os.path.join(tmp, fname), weights_only=True)
-        fresh = T.build(spec, perturb=True).models[mi]
-        fresh.load_state_dict(sd, strict=True)
-        with torch.no_grad():
-            return sd, fresh(probe).as_tensor.clone()
+    ref_keys = list(sd_before.keys())
+
+    def read(which):
+        """content of the file if it has exactly the entries of the model's state_dict, else None"""
+        with ctx.lib("read-" + which, feature=which):
+            sd = torch.load(os.path.join(tmp, f"w_{which}.pt"), weights_only=True)
+        if not isinstance(sd, dict):
+            report("weight-file-keys", which + "-not-a-state-dict", f"w_{which}.pt holds a {type(sd).__name__}")
+            return None
+        missing = [k for k in ref_keys if k not in sd]
+        unexpected = [k for k in sd if k not in ref_keys]
+        if missing:
+            shared = len(ref_keys) - len({id(v) for v in watched.state_dict(keep_vars=True).values()})
+            report("weight-file-keys", which + "-missing-entries",
+                   f"w_{which}.pt lacks {missing[:6]} of the {len(ref_keys)} state_dict entries of the model "
+                   f"({len(list(watched.named_parameters()))} named parameters, "
+                   f"{len(list(watched.named_buffers()))} buffers, {shared} repeated entries): it cannot be "
+                   f"loaded into a freshly built identical model")
+        if unexpected:
+            report("weight-file-keys", which + "-unexpected-entries",
+                   f"w_{which}.pt has entries {unexpected[:6]} that the model's state_dict does not have")
+        return None if (missing or unexpected) else sd
+
+    def load_into_fresh(which, sd):
+        """eval-mode outputs and state of a fresh (differently initialised) model after a strict load"""
+        with ctx.lib("load-" + which, feature=which):
+            fresh = _build(spec, perturb=True).models[mi]
+            fresh.load_state_dict(sd, strict=True)
+        return _state_copy(fresh), _eval_outputs(fresh, probe)
 
     files = {n: os.path.exists(os.path.join(tmp, "w_" + n + ".pt")) for n in ("init", "final", "min_loss")}
     for which, flag, sd_ref, out_ref in (("init", ws["init"], sd_before, out_before),
@@ -225,9 +524,11 @@ def _run(spec, ctx, tmp):
         if not files[which]:
             report("missing-file", which, f"w_{which}.pt was not written (N={N})")
             continue
-        with ctx.lib("load-" + which, feature=which):
-            sd, out = load_into_fresh(f"w_{which}.pt")
-        if not _same_state(sd_ref, sd):
+        sd = read(which)
+        if sd is None:
+            continue
+        sd_loaded, out = load_into_fresh(which, sd)
+        if not _same_state(sd_ref, sd) or not _same_state(sd_ref, sd_loaded):
             report("weight-file-mismatch", which,
                    f"w_{which}.pt does not hold the model's state {'before' if which == 'init' else 'after'} training")
         elif not _bitwise(out, out_ref):
@@ -237,10 +538,14 @@ def _run(spec, ctx, tmp):
         if files["min_loss"]:
             report("unexpected-file", "min_loss", "w_min_loss.pt written with a negative check interval")
     elif files["min_loss"]:
-        with ctx.lib("load-min_loss", feature="min_loss"):
-            sd, _out = load_into_fresh("w_min_loss.pt")
-        hits = [b for b, s in sorted(rec.at_batch_start.items()) if b > 0 and _same_state(s, sd)]
-        if not hits:
+        sd = read("min_loss")
+        if sd is not None:
+            sd, _out = load_into_fresh("min_loss", sd)
+        hits = [b for b, s in sorted(rec.at_batch_start.items())
+                if sd is not None and b > 0 and _same_state(s, sd)]
+        if sd is None:
+            pass
+        elif not hits:
             report("weight-file-mismatch", "min_loss",
                    f"w_min_loss.pt equals the model state at the start of no batch > 0 (interval {ws['interval']}, N={N})")
         elif not any(b in checked for b in hits):
@@ -273,6 +578,18 @@ def _run(spec, ctx, tmp):
         classes.append("trained-parameter")
     if any(info["adaptive"] is not None for info in w.train_info):
         classes.append("adaptive-weights")
+    classes.append("family:" + spec.get("family", "pinn"))
+    for m in spec["models"]:
+        if m.get("adaptive"):
+            classes.append("activation:adaptive-" + m["adaptive"])
+        if m.get("bn"):
+            classes.append("fno-batchnorm")
+    n_sd, n_np = len(ref_keys), len(list(watched.named_parameters()))
+    classes.append("watched:state_dict>named_parameters" if n_sd > n_np else "watched:state_dict==named_parameters")
+    if any(True for _ in watched.named_buffers()):
+        classes.append("watched:has-buffers")
+    if n_sd - len(list(watched.named_buffers())) > n_np:
+        classes.append("watched:shared-parameter")
     for n, present in files.items():
         if present:
             classes.append("file:" + n)
